@@ -213,10 +213,13 @@ def run(tier, seed):
             D.run("_arctan2", [a1[1] / a1[2] * 10 ** rng.uniform(-9, 0), a1[0] / a1[2] * 10 ** rng.uniform(-9, 0)])
     # ---- D: reflection generation
     tabs, dic = export.write_tables_module(wd)
-    pick = [(t["no"], t["setting"]) for t in tabs if t["no"] in (1, 2, 5, 14, 19, 62, 88, 123, 143, 148, 150, 155, 160, 167, 176, 186, 194, 198, 205, 220, 225, 227, 230)]
+    pick = [(t["no"], t["setting"]) for t in tabs if t["no"] in (1, 2, 5, 14, 19, 62, 88, 123, 143, 146, 148, 150, 155, 158, 159, 160, 163, 165, 167, 176, 185, 186, 188, 194, 198, 205, 220, 225, 227, 230)]
     if tier == "thorough":
         pick = [(t["no"], t["setting"]) for t in tabs]
     inst = gl.make_instances(tabs, rng, 1, 120, only=set(pick))
+    # Laue class -3 on rhombohedral axes is the one traversal with a widened search bound (sintl_scale): several oblique cells,
+    # long axes included, so that the two modules are compared where the bound matters
+    inst += gl.make_instances(tabs, rng, 6 if tier == "quick" else 30, 160, only={(146, "rhombohedral"), (148, "rhombohedral")}, long_every=1)
     common.write_data_module(wd, "GenHklCases", {"Instances": inst})
     rg = common.run_tlc("GenHkl", "MC_GenHkl.cfg", wd, timeout=2400, heap="12g")
     states += rg.distinct
@@ -247,7 +250,7 @@ def run(tier, seed):
                     D.bad.append("%s: tools and laue return different reflection lists %s" % (fn, note))
         kw = dict(crystal_system=t["crystal_system"], Laue_class=t["Laue"], cell_choice=t["cell_choice"], output_stl=True)
         D.run("genhkl_base", [cell, t["syscond"], smin, smax], kwargs=kw, note=note)
-        if t["crystal_system"] in ("triclinic", "monoclinic", "orthorhombic"):
+        if True:        # the older generator: every crystal system (the system reaches sysabs, which permutes indices for trigonal/hexagonal/cubic)
             D.run("genhkl", [cell, t["syscond"], smin, smax], kwargs=dict(crystal_system=t["crystal_system"], output_stl=True), note=note)
         for (h, ty, tu) in byi[i]["sysabs"]["judge"]["types"][:60]:
             D.run("sysabs", [list(h), t["syscond"], t["crystal_system"], t["cell_choice"]], note=note)
